@@ -123,6 +123,7 @@ class ConfigId:
     def cfgid_str(self) -> Optional[str]:
         if self.is_baltech_naming_scheme:
             project_id = UNKNOWN if self.project is None else self.project
+            device_id = UNKNOWN if self.device is None else self.device
             if self.is_device_settings:
                 fmtstr = "{customer:05}-{projectId:04}-0000-{version:02}"
             else:
@@ -130,7 +131,7 @@ class ConfigId:
             return fmtstr.format(
                 customer=self.customer,
                 version=self.version,
-                device=self.device,
+                device=device_id,
                 projectId=project_id,
             )
         else:
